@@ -9,7 +9,8 @@
    Operational machine   : the wrapper designs of CompressImpl over the library contracts
    Theorem checked by TLC: every observation of every reachable call satisfies its obligation
                            (Conforms), for histories of ANY length (with KeepHist = FALSE the
-                           reachable state space is finite and no length bound is imposed),
+                           reachable state space is finite and no length bound is imposed; only
+                           the chunk counter saturates at MaxRd and a segment takes MaxW Writes),
                            under each usage grammar:
        free    any call sequence within the usage discipline
        pool    connect's compressionPool: Get, Reset(src), ReadFrom [after a limited read],
